@@ -1,6 +1,7 @@
 package run
 
 import (
+	"context"
 	"fmt"
 	"math/rand"
 	"sort"
@@ -28,7 +29,8 @@ type C06Caller struct {
 type C06W struct {
 	Plugins []C06Plugin `json:"plugins"`
 	Callers []C06Caller `json:"callers"`
-	Exits   []string    `json:"exits,omitempty"` // plugins that stop themselves at some point during the traffic
+	Exits   []string    `json:"exits,omitempty"`  // plugins that stop themselves at some point during the traffic
+	Rejoin  []string    `json:"rejoin,omitempty"` // of those, the ones that start again (same stub, fresh connection) afterwards
 }
 
 const hugeTimeout = 1000 * time.Hour
@@ -88,6 +90,9 @@ func c06Gen(rng *rand.Rand, conf string, idx int) any {
 		for _, p := range w.Plugins {
 			if !p.Late && rng.Intn(3) == 0 {
 				w.Exits = append(w.Exits, p.Name)
+				if rng.Intn(2) == 0 {
+					w.Rejoin = append(w.Rejoin, p.Name)
+				}
 			}
 		}
 	}
@@ -141,14 +146,32 @@ func c06Run(t *testing.T, wl any, sc SchedCfg) *Result {
 			}
 		}
 		exitStep := map[string]int{}
+		rejoined := map[string]bool{}
+		var rejoinErr []string
 		for _, name := range w.Exits {
 			name := name
 			if pl := h.Plugs[name]; pl != nil {
+				rejoin := false
+				for _, r := range w.Rejoin {
+					if r == name {
+						rejoin = true
+					}
+				}
 				e.Task("exit-"+name, func() {
 					h.mu.Lock()
 					exitStep[name] = e.S.Steps
 					h.mu.Unlock()
 					pl.Stub.Stop()
+					if rejoin {
+						e.S.Probe("C06.plugin-rejoins")
+						err := pl.Stub.Start(context.Background())
+						h.mu.Lock()
+						rejoined[name] = err == nil
+						if err != nil {
+							rejoinErr = append(rejoinErr, fmt.Sprintf("%s: %v", name, err))
+						}
+						h.mu.Unlock()
+					}
 				})
 			}
 		}
@@ -181,9 +204,52 @@ func c06Run(t *testing.T, wl any, sc SchedCfg) *Result {
 				}
 			})
 		}
-		if err := e.RunUntil(400000, func() bool { return e.TasksDone() && h.L.AcceptCount() >= len(w.Plugins)+1 }); err != nil {
+		if err := e.RunUntil(400000, func() bool {
+			h.mu.Lock()
+			nd := h.ndials
+			h.mu.Unlock()
+			return e.TasksDone() && h.L.AcceptCount() >= nd+1
+		}); err != nil {
 			res.Violate("C06.liveness", "phase 2: %v; pending %v", err, e.S.Pending())
 			return
+		}
+		for _, m := range rejoinErr {
+			res.Violate("C06.registration", "a plugin that had stopped could not register again: %s", m)
+		}
+		// after everything settled: one more request that every plugin still (or again) registered must get
+		var last *c06Req
+		if len(w.Rejoin) > 0 {
+			last = &c06Req{ID: "rfinal", Event: "StartContainer", Inv: -1, Ret: -1}
+			e.Task("final-request", func() {
+				e.S.Settle("final-request")
+				pod := &api.PodSandbox{Id: "pod-rfinal"}
+				last.Inv = e.S.Steps
+				last.Resp, last.Err = h.Call("StartContainer", pod, &api.Container{Id: "rfinal", PodSandboxId: pod.Id}, nil)
+				last.Ret = e.S.Steps
+			})
+			if err := e.RunUntil(200000, func() bool { return e.TasksDone() }); err != nil {
+				res.Violate("C06.liveness", "final request: %v", err)
+				return
+			}
+			got := map[string]int{}
+			for _, en := range h.entriesCopy() {
+				if en.Token == "rfinal" {
+					got[en.Plugin]++
+				}
+			}
+			for _, p := range w.Plugins {
+				gone := false
+				if _, ex := exitStep[p.Name]; ex && !rejoined[p.Name] {
+					gone = true
+				}
+				want := 1
+				if gone || !subscribed(p.Mask, "StartContainer") {
+					want = 0
+				}
+				if got[p.Name] != want {
+					res.Violate("C06.exactly-once", "final request after all registrations, exits and re-registrations had settled: plugin %s (mask %#x, exited: %v, rejoined: %v) was invoked %d times, want %d", p.Name, p.Mask, exitStep[p.Name] > 0, rejoined[p.Name], got[p.Name], want)
+				}
+			}
 		}
 		c06Oracle(res, w, h, reqs, exitStep)
 	})
@@ -205,7 +271,9 @@ func c06Oracle(res *Result, w *C06W, h *H1, reqs []*c06Req, exitStep map[string]
 	syncStep := map[string]int{}
 	for _, en := range entries {
 		if en.RPC == "Synchronize" {
-			syncStep[en.Plugin] = en.Step
+			if _, seen := syncStep[en.Plugin]; !seen { // the first synchronization (a plugin may rejoin later)
+				syncStep[en.Plugin] = en.Step
+			}
 		}
 	}
 	pw := map[string]C06Plugin{}
